@@ -539,7 +539,7 @@ fn case_strategy(_tier: Tier) -> BoxedStrategy<C20Case> {
             lat,
         });
     let readiness = (
-        0u8..13,
+        0u8..(13 + STACKS.len() as u8),
         0u8..3,
         prop_oneof![1 => Just(0u16), 1 => any::<u16>()],
         prop_oneof![3 => Just(None), 1 => (0u8..8).prop_map(Some)],
@@ -686,10 +686,18 @@ async fn readiness(
     let mut v = vec![];
     let log = Log::new();
     let mut sim = Sim::new(log.clone(), vec![]);
-    let trigger = match layer {
-        3 => RETRY_CODE,
-        8 => RECONNECT_CODE,
-        _ => 7,
+    let stack: Option<&[usize]> = if layer >= 13 { Some(STACKS[(layer - 13) % STACKS.len()]) } else { None };
+    let has = |l: usize| stack.map_or(layer == l, |st| st.contains(&l));
+    let trigger = if has(3) {
+        RETRY_CODE
+    } else if has(8) {
+        RECONNECT_CODE
+    } else {
+        7
+    };
+    let lname: String = match stack {
+        Some(st) => format!("stack {:?}", st.iter().map(|&l| LAYERS[l]).collect::<Vec<_>>()),
+        None => LAYERS[layer].to_string(),
     };
     let reqs = requests.to_vec();
     let scripted = Scripted::new(log.clone(), 1, move |req, k, _| {
@@ -715,7 +723,10 @@ async fn readiness(
         }
         _ => base_of(tower::limit::ConcurrencyLimit::new(strict, 4)),
     };
-    let top = wrap(layer, base, 1, None);
+    let top = match stack {
+        Some(st) => build_stack(st, base, 1),
+        None => wrap(layer, base, 1, None),
+    };
     let slots: Vec<Rc<RefCell<Option<Boxed>>>> = (0..3)
         .map(|_| Rc::new(RefCell::new(Some(top.clone()))))
         .collect();
@@ -810,7 +821,7 @@ async fn readiness(
                 t,
             } => v.push(format!(
                 "t={t}: {} called inner service instance {a} for request {b} without having observed its readiness since that instance's previous call",
-                LAYERS[layer]
+                lname
             )),
             Ev::Note {
                 kind: "outer_ready_err",
@@ -819,7 +830,7 @@ async fn readiness(
                 t,
             } => v.push(format!(
                 "t={t}: inner instance {a} failed poll_ready but {}'s poll_ready did not return that error",
-                LAYERS[layer]
+                lname
             )),
             Ev::TaskPanic {
                 scripted: false,
@@ -828,7 +839,7 @@ async fn readiness(
                 ..
             } => v.push(format!(
                 "t={t}: {} over {} panicked: {msg}",
-                LAYERS[layer],
+                lname,
                 ["strict", "tower Buffer", "tower ConcurrencyLimit"][inner_kind as usize]
             )),
             _ => {}
@@ -861,7 +872,7 @@ async fn readiness(
         match resolve {
             None => v.push(format!(
                 "{} over {}: request {i} never resolved",
-                LAYERS[layer],
+                lname,
                 ["strict", "tower Buffer", "tower ConcurrencyLimit"][inner_kind as usize]
             )),
             Some(Outcome::Ok { serial, req }) => {
@@ -873,16 +884,16 @@ async fn readiness(
                 if !enters.contains(&serial) {
                     v.push(format!("request {i}: error {code} is not from one of its own inner calls"));
                 }
-                if (layer == 3 || layer == 8) && code == trigger {
+                if (has(3) || has(8)) && code == trigger {
                     v.push(format!(
                         "request {i}: {} gave up with the retryable error although the second attempt succeeds",
-                        LAYERS[layer]
+                        lname
                     ));
                 }
             }
             Some(other) => v.push(format!(
                 "{} over {}: request {i} resolved with {other:?} although nothing should trigger the layer",
-                LAYERS[layer],
+                lname,
                 ["strict", "tower Buffer", "tower ConcurrencyLimit"][inner_kind as usize]
             )),
         }
@@ -1063,7 +1074,10 @@ pub fn run_case(case: &C20Case) -> Report {
             if nontrivial {
                 r.class("readiness_two_calls_on_one_instance_or_reattempt");
             }
-            r.trace = json!({"layer": LAYERS[*layer as usize], "events": log.iter().take(40).collect::<Vec<_>>() });
+            if *layer as usize >= 13 {
+                r.class("readiness_stack");
+            }
+            r.trace = json!({"target": *layer, "events": log.iter().take(40).collect::<Vec<_>>() });
         }
         C20Case::Listeners {
             layer,
@@ -1129,8 +1143,8 @@ impl Property for C20 {
     }
     fn budget(&self, tier: Tier) -> (u32, usize) {
         match tier {
-            Tier::Quick => (12_000, 8),
-            Tier::Thorough => (400_000, 16),
+            Tier::Quick => (60_000, 8),
+            Tier::Thorough => (1_000_000, 16),
         }
     }
     fn run(&self, case: &C20Case) -> Report {
